@@ -438,7 +438,9 @@ func (s *BaseVisitor) EnterOC_Atom(c *parser.OC_AtomContext) {}
 
 func (s *BaseVisitor) EnterOC_CaseAlternative(c *parser.OC_CaseAlternativeContext) {}
 
-func (s *BaseVisitor) EnterOC_ListComprehension(c *parser.OC_ListComprehensionContext) {}
+func (s *BaseVisitor) EnterOC_ListComprehension(c *parser.OC_ListComprehensionContext) {
+	s.newUnsupportedRuleError(c)
+}
 
 func (s *BaseVisitor) EnterOC_PatternComprehension(c *parser.OC_PatternComprehensionContext) {}
 
